@@ -4,7 +4,7 @@
 From Coq Require Import List NArith ZArith Bool.
 Import ListNotations.
 Require Import Verif.Lib.Wire Verif.Gen.Facts_C03 Verif.Model.C03 Verif.Proofs.C03 Verif.Gen.Facts_C14 Verif.Model.C14
-               Verif.Proofs.C14 Verif.Proofs.C14_b Verif.Proofs.C14_c Verif.Proofs.C14_d Verif.Proofs.C03_ov Verif.Proofs.C03_med.
+               Verif.Proofs.C14 Verif.Proofs.C14_b Verif.Proofs.C14_c Verif.Proofs.C14_d Verif.Proofs.C14_gen Verif.Proofs.C03_ov Verif.Proofs.C03_med.
 
 (* the regenerated constants of the anchored code (hidden attribute names, what is assigned inside and after
    the with-block, request_iface.combined, the classes caught by the tween / _error_handler /
@@ -305,3 +305,78 @@ Theorem C14_excview_nearest_class_media : forall ao regs P W ri e,
   end.
 Proof. exact excview_nearest_class_media. Qed.
 Print Assumptions C14_excview_nearest_class_media.
+
+(* ====================================================================================================
+   The functions REGENERATED from the source on this run (Gen/Facts_C14.v, by harness/c14/translate.py) equal the
+   hand-written reference model, for all inputs.  A semantic change of hide_attrs / reraise / invoke_exception_view /
+   _error_handler / excview_tween / default_exceptionresponse_view / isexception makes one of these fail to compile;
+   a harmless rewrite does not.  The correspondence run executes the regenerated pipeline [run_request_gen]. *)
+Theorem C14_gen_hide_attrs_is_model : forall (A : Type) names (body : state -> wres A * state) st,
+  gen_hide_attrs names body st = hide_attrs_w names body st.
+Proof. exact @gen_hide_attrs_is_model. Qed.
+Print Assumptions C14_gen_hide_attrs_is_model.
+
+Theorem C14_gen_reraise_is_model : forall W fresh value, gen_reraise W fresh value = reraise_m fresh value.
+Proof. exact gen_reraise_is_model. Qed.
+Print Assumptions C14_gen_reraise_is_model.
+
+Theorem C14_gen_iev_is_model : forall b W ri site rr sec e st,
+  gen_iev (spec_params_b b) W ri site rr sec e st = iev_pm (spec_params_b b) W ri site rr sec e st.
+Proof. exact gen_iev_is_model. Qed.
+Print Assumptions C14_gen_iev_is_model.
+
+Theorem C14_gen_error_handler_is_model : forall b W ri site e st,
+  gen_error_handler (spec_params_b b) W ri site e st
+  = error_handler_m (spec_params_b b) W (iev_pm (spec_params_b b) W ri) site e st.
+Proof. exact gen_error_handler_is_model. Qed.
+Print Assumptions C14_gen_error_handler_is_model.
+
+Theorem C14_gen_excview_tween_is_model : forall b W ri ho st,
+  gen_excview_tween (spec_params_b b) W ri site_tween ho st
+  = excview_tween_g (spec_params_b b) W (iev_pm (spec_params_b b) W ri) ho st.
+Proof. exact gen_excview_tween_is_model. Qed.
+Print Assumptions C14_gen_excview_tween_is_model.
+
+Theorem C14_gen_default_view_is_model : forall W ctx st, gen_default_view W ctx st = ctx_returned W ctx (st_attrs st).
+Proof. exact gen_default_view_is_model. Qed.
+Print Assumptions C14_gen_default_view_is_model.
+
+Theorem C14_gen_isexception_is_model : forall c, gen_isexception c = isexception_m c.
+Proof. exact gen_isexception_is_model. Qed.
+Print Assumptions C14_gen_isexception_is_model.
+
+Theorem C14_run_request_gen_is_model : forall b W ri,
+  run_request_gen (spec_params_b b) W ri = run_request_pm (spec_params_b b) W ri.
+Proof. exact run_request_gen_is_model. Qed.
+Print Assumptions C14_run_request_gen_is_model.
+
+(* the property theorems restated about the regenerated functions *)
+Theorem C14_gen_hide_attrs_restores : forall (A : Type) names (body : state -> wres A * state) st k,
+  NoDup names -> In k names -> st_get k (snd (gen_hide_attrs names body st)) = st_get k st.
+Proof. exact @gen_hide_attrs_restores. Qed.
+Print Assumptions C14_gen_hide_attrs_restores.
+
+Theorem C14_gen_no_view_propagates_same_object : forall b W ri e st,
+  no_pm (spec_params_b b) W ->
+  isa W cn_HTTPNotFound (fresh_pme site_tween) = true -> isa W cn_HTTPNotFound (fresh_nf site_tween) = true ->
+  not_found (call_view (w_reg W) exc_classifier_id (exc_request (spec_params_b b) W ri e)) ->
+  let r := gen_excview_tween (spec_params_b b) W ri site_tween (Raise e) st in
+  fst r = Raise e /\ st_log (snd r) = st_log st
+  /\ forall k, In k (p_hidden (spec_params_b b)) -> aget k (st_attrs (snd r)) = aget k (st_attrs st).
+Proof. exact gen_no_view_propagates. Qed.
+Print Assumptions C14_gen_no_view_propagates_same_object.
+
+Theorem C14_gen_judge_accepts_partial : forall b regs W ri,
+  no_pm (spec_params_b b) W ->
+  b = true \/ sec_of (ri_under ri) = true ->
+  (forall e, spec_ok exc_classifier_id regs (exc_request (spec_params_b b) W ri e)
+               (call_view (w_reg W) exc_classifier_id (exc_request (spec_params_b b) W ri e)) = true) ->
+  isa W cn_Exception ctx_resource = false ->
+  (forall site, In site [site_under; site_tween] ->
+     isa W cn_HTTPNotFound (fresh_nf site) = true /\ isa W cn_HTTPNotFound (fresh_pme site) = true
+     /\ isa W cn_Exception (fresh_pme site) = true
+     /\ isa W cn_HTTPForbidden (fresh_forb site) = true /\ isa W cn_Exception (fresh_forb site) = true
+     /\ isa W cn_HTTPNotFound (fresh_forb site) = false) ->
+  judge regs W ri (run_request_gen (spec_params_b b) W ri) = true.
+Proof. exact gen_judge_accepts. Qed.
+Print Assumptions C14_gen_judge_accepts_partial.
